@@ -148,11 +148,11 @@ def change_basis_Qbfs_to_Pn(cs):
 
 
     """
-    if hasattr(cs, 'dtype'):
-        # array, initialize as array
+    if hasattr(cs, 'dtype') and cs.dtype.kind == 'f':
+        # floating point array, initialize as array of the same type
         bs = np.empty_like(cs)
     else:
-        # iterable input
+        # iterable or integer array input; the b_m are not integers
         bs = np.empty(len(cs), dtype=config.precision)
 
     M = len(bs)-1
@@ -963,11 +963,11 @@ def change_of_basis_Q2d_to_Pnm(cns, m):
         m = -m
 
     cs = cns
-    if hasattr(cs, 'dtype'):
-        # array, initialize as array
+    if hasattr(cs, 'dtype') and cs.dtype.kind == 'f':
+        # floating point array, initialize as array of the same type
         ds = np.empty_like(cs)
     else:
-        # iterable input
+        # iterable or integer array input; the d_n are not integers
         ds = np.empty(len(cs), dtype=config.precision)
 
     N = len(cs) - 1
